@@ -8,7 +8,8 @@ partial def admitsMany (env : Env) (fuel : Nat) : Ty → Bool
   | .basic _ bk => bk != .none
   | .time _ => true
   | .arr n e => if n < 0 then true else n > 0 && admitsMany env fuel e
-  | .map _ _ => true
+  -- a map over a key type with a single value has a single entry whatever the number of insertions
+  | .map k e => admitsMany env fuel k || admitsMany env fuel e
   | .ptr e => admitsMany env fuel e
   | .ref q =>
     if fuel == 0 then false else
